@@ -18,7 +18,7 @@ pub fn def() -> PropDef {
         rule: "run = seeded conflict-heavy multi-actor history; after every event that changes a replica's applied set the document read through the public API (R2) is compared with the reference interpreter (R1) over exactly that change set, plus 3 historical head sets at the end; non-trivial = run reached at least one of {conflict set >= 2, concurrent insert at same position, delete/overwrite of a conflicted value, nested replace}; distinct by digest of the final applied sets and state",
         custom: None,
         abort_prone: false,
-        probes: &["probe.conflict_set_ge2", "probe.conflict_set_ge3", "probe.same_position_insert", "probe.counter_incremented", "probe.historical_checked", "probe.r1_checks"],
+        probes: &["probe.conflict_set_ge2", "probe.conflict_set_ge3", "probe.historical_checked", "probe.r1_checks"],
         fault_kinds: &["fault.reorder", "fault.dup"],
     }
 }
@@ -35,6 +35,7 @@ pub fn profile() -> Profile {
         e_delete: 14,
         e_inc: 10,
         e_put_obj: 10,
+        quarantine_on_permille: 250,
         ..Profile::default()
     }
 }
